@@ -1,7 +1,23 @@
 /-
   C06 — unification returns a most general unifier extending prior bindings.
+
+  The first-order reading of terms and substitution sets is `Spec/FOSubst.lean` (`abs`, `FO.subst`,
+  `Solves θ σ`, `Unifies θ a b`); `goodT` = function-free, no NaN, no bare `Nil`, well-formed lists.
+  PROVED, for all terms, substitution sets, candidate unifiers θ and fuel:
+    * E  `unify_extends`            every earlier binding is kept verbatim;
+    * G  `unify_general`            every unifier of a, b that validates σ also validates the result
+                                    (the result binds no more than a most general unifier does);
+    * C  `unify_no_false_failure`   if some unifier of a, b validates σ, unification does not report
+                                    failure (it succeeds, or — occurs-check situations, outside the claim
+                                    — does not return);
+    *    `unify_keeps_wf`           the result set is well formed again, so the theorems chain over
+                                    sequences of unifications.
+  NOT PROVED (`_partial` in the manifest): S — that the result, once resolved, makes both terms
+  identical (needs the acyclicity argument); decided on every run by the reference unifier of the
+  harness (random sequences + all ordered pairs of a 60-term universe under 10 prior sets).
 -/
 import SuironVerif.Lemmas.UnifyWF
+import SuironVerif.Lemmas.UnifyMgu
 namespace Suiron.C06
 
 /-- (E) a successful unification keeps every earlier binding. -/
@@ -22,6 +38,39 @@ theorem unify_result_wf (fo : FloatOps) (f : Nat) (a b : Term) (σ σ' : Subst)
     (ha : a.FOK = true) (hb : b.FOK = true) (hσ : Subst.FOK σ)
     (h : unify fo f a b σ = .ok σ') : Subst.FOK σ' :=
   ((unify_inv_wf fo (fun _ => True) (fun _ _ _ _ _ => trivial) f).1 a b σ σ' ha hb hσ h trivial).2
+
+/-- (G) generality: the result binds no more than a most general unifier -/
+theorem unify_general (fo : FloatOps) (θ : Nat → Spec.FO) (f : Nat) (a b : Term) (σ σ' : Subst)
+    (h : unify fo f a b σ = .ok σ') (ha : Spec.goodT a = true) (hb : Spec.goodT b = true) (hσ : Spec.SubstGood σ)
+    (hs : Spec.Solves θ σ) (hu : Spec.Unifies θ a b) : Spec.Solves θ σ' :=
+  ((Spec.unify_general fo θ f).1 a b σ σ' h (Spec.goodT_FF a ha) (Spec.goodT_FF b hb) (Spec.SubstGood_FF hσ) hs hu).1
+
+/-- (C) no false failure: when a unifier extending σ exists, `unify` does not answer "no" -/
+theorem unify_no_false_failure (fo : FloatOps) (θ : Nat → Spec.FO) (f : Nat) (a b : Term) (σ : Subst)
+    (ha : Spec.goodT a = true) (hb : Spec.goodT b = true) (hσ : Spec.SubstGood σ)
+    (hs : Spec.Solves θ σ) (hu : Spec.Unifies θ a b) : unify fo f a b σ ≠ .fail :=
+  fun h => (Spec.unify_complete fo θ f).1 a b σ h ha hb hσ hs hu
+
+/-- well-formedness is preserved, so (E), (G), (C) apply again to the next unification -/
+theorem unify_keeps_wf (fo : FloatOps) (f : Nat) (a b : Term) (σ σ' : Subst)
+    (h : unify fo f a b σ = .ok σ') (ha : Spec.goodT a = true) (hb : Spec.goodT b = true) (hσ : Spec.SubstGood σ) :
+    Spec.SubstGood σ' :=
+  (Spec.unify_good fo f).1 a b σ σ' h ha hb hσ
+
+/-- the contrapositive of (C), as the property words it: a reported failure means no unifier extends σ -/
+theorem failure_means_no_unifier (fo : FloatOps) (f : Nat) (a b : Term) (σ : Subst)
+    (ha : Spec.goodT a = true) (hb : Spec.goodT b = true) (hσ : Spec.SubstGood σ)
+    (h : unify fo f a b σ = .fail) : ¬ ∃ θ : Nat → Spec.FO, Spec.Solves θ σ ∧ Spec.Unifies θ a b :=
+  fun ⟨θ, hs, hu⟩ => unify_no_false_failure fo θ f a b σ ha hb hσ hs hu h
+
+-- non-vacuity: a list pattern with a tail variable and a nested complex term are well formed
+example : Spec.goodT (.cons (.var 1 "$H") (.cons (.var 2 "$T") Term.empty 1 true) 2 false) = true := by decide
+example : Spec.goodT (.cplx (.cons (.atom "f") (.cons (.cons (.int 1) Term.empty 1 false) (.cons (.flt 0) .nil)))) = true := by decide
+-- and a unifier exists for `[$H | $T] = [a, b]`: θ = {1 ↦ a, 2 ↦ [b]}
+example : Spec.Unifies (fun i => if i = 1 then .atom "a" else if i = 2 then .lcons (.atom "b") .lnil else .var i)
+    (.cons (.var 1 "$H") (.cons (.var 2 "$T") Term.empty 1 true) 2 false)
+    (.cons (.atom "a") (.cons (.atom "b") Term.empty 1 false) 2 false) := by
+  simp [Spec.Unifies, Spec.abs, Spec.FO.subst, Term.empty, Term.isNil]
 
 def fo0 : FloatOps := ⟨fun a _ => a, fun a _ => a, fun a _ => a, fun a _ => a, fun _ => 0, fun _ => ""⟩
 example : unify fo0 10 (.cplx (.cons (.atom "f") (.cons (.var 1 "$X") (.cons (.var 2 "$Y") .nil))))
